@@ -40,7 +40,8 @@ RULE = ("shapes (2,3,3), (3,2,3,2), (2,3,3,2), (3,2,2,3), (2,2,2,2), (3,3,3), (2
         "versions and must give pyttb's tensor / boolean; wave 5: SEVERAL groups whose number differs from their length (three groups of "
         "two modes, two groups of three modes of 6-way tensors; mode sizes equal or different between the groups); stored arrays of type "
         "uint8 / uint16 / uint32 / uint64 / int8 / int16 with values at the ends of the range and logical arrays (both operations, both "
-        "versions, with / without details: open findings C15-N1, C15-N2); Kruskal requests that must be refused (not cubical, receiver "
+        "versions, with / without details: ordinary cases, the exact answer / average / all_diffs is the one accepted behaviour; the inputs of the "
+        "repaired findings C15-N1, C15-N2 are always generated); Kruskal requests that must be refused (not cubical, receiver "
         "untouched); odd-order Kruskal tensors whose columns disagree with mode 0 in exactly two modes; the body of ktensor.symmetrize AS "
         "WRITTEN (loops with in-place updates) is executed on pyttb's normalize('all') result and must give pyttb's weights / factors and "
         "the closed form exactly; non-trivial = data not symmetric in the groups or the group is a proper subset")
@@ -52,9 +53,10 @@ CORRESPONDENCE_ONLY = ["ktensor.symmetrize: the tie of pyttb's normalize('all') 
                        "owns permute), accumarray / np.maximum / np.abs / np.max by their mathematical meaning",
                        "numpy / numpy_groupies primitives used by the code-level transliteration Model/C15Lin.v (np.sort on a row, fancy "
                        "indexing, aggregate) are modelled by hand, tied by executing the transliteration on the generated inputs; the "
-                       "ACCUMULATOR TYPE numpy_groupies.aggregate picks for non-float64 data is outside the model (open finding C15-N2)",
+                       "ACCUMULATOR TYPE numpy_groupies.aggregate picks is outside the model (since e313404 the code hands it result_type(dtype, float64) "
+                       "data; uint64 entries above 2^24 are in the stream)",
                        "element types other than float64 (int8 ... uint64, bool, float32): the models compute over Z / Qc; the stream "
-                       "compares pyttb's answers on such arrays with the exact ones (open findings C15-N1, C15-N2)"]
+                       "compares pyttb's answers (boolean, averages, all_diffs) on such arrays with the exact ones, no exception for any element type"]
 ASSUMPTIONS = ["C15_ksym_normalize_signed_copies / C15_ksym_proportional_keeps assume of the norm oracle: nrm (c . l) = nrm l * c or nrm l * (-c) "
                "(absolute homogeneity, true of every p-norm), besides C08's oracle hypotheses",
                "the average is taken in exact rational arithmetic; pyttb's float result must lie within 1e-9 relative",
@@ -466,6 +468,19 @@ def gen_w5(rng, big):
             for d in (data, sdata, adata):
                 for version, details in combos:
                     cases.append(Case("issymmetric", dict(base, data=d, version=version, details=details), True))
+    # regression inputs of the repaired findings C15-N1 (2095b45: the old test takes its answer from array_equal and subtracts after
+    # astype(float)) and C15-N2 (e313404: class sums accumulated in result_type(dtype, float64)); ordinary cases, always generated.
+    # data in Fortran order: logical [[1,1],[0,1]] (= [[1.,2.],[0.,4.]] > 0.5), uint8 [[1,200],[100,4]] (true largest difference 100),
+    # uint64 3x3 with entries > 2^24 that float32 cannot hold
+    for dt, shape, data in (("bool", (2, 2), [1, 0, 1, 1]), ("uint8", (2, 2), [1, 100, 200, 4]),
+                            ("uint64", (3, 3), [623645800123, 1099511627776, 733086958055, 971246110324, 3, 1099511627776,
+                                                1099511627776, 0, 591631255773])):
+        for grps in (None, [[0, 1]]):
+            base = {"shape": list(shape), "grps": grps, "w3": 1, "dtype": dt}
+            for version in (None, 1):
+                cases.append(Case("symmetrize", dict(base, data=data, version=version), True))
+            for version, details in combos:
+                cases.append(Case("issymmetric", dict(base, data=data, version=version, details=details), True))
     # Kruskal tensors that are not cubical: refused by the assertion, the receiver untouched
     for sizes in ((2, 3), (3, 2), (2, 2, 3), (3, 2, 2), (2, 3, 2), (2, 2, 2, 3), (1, 2), (3, 3, 3, 1)):
         for R in ((1, 2, 3) if big else (rng.choice([1, 2]),)):
@@ -1007,97 +1022,3 @@ def oracle(c, o):
     if not o.get("receiver_intact", True):
         return "writing to the returned tensor changed the receiver: the result shares its data with the (already symmetric) input"
     return None
-
-
-# ----------------------------------------------------------------------------------------------------------------
-# known finding C15-N1 (wave 5): the OLD symmetry test subtracts in the element type of the stored array
-def _np_abs_max_wrapped(pairs, bits, signed):
-    """what np.max(np.abs(x - y)) gives in a (bits, signed) integer type (pure python simulation of the wrap-around)"""
-    out = None
-    for x, y in pairs:
-        d = (x - y) % (2 ** bits)
-        if signed:
-            if d >= 2 ** (bits - 1):
-                d -= 2 ** bits
-            if d < 0 and d != -(2 ** (bits - 1)):                     # np.abs of the most negative value stays negative
-                d = -d
-        out = d if out is None or d > out else out
-    return out
-
-
-def _n1(c):
-    """EXACTLY the requests on which C15-N1 shows: old path of tensor.issymmetric (version given or details requested), the size
-    check passed, stored array of logical type and some within-group rearrangement changes it (TypeError), or of an integer type
-    in which the largest |difference| under some rearrangement is reported differently after wrap-around (details requested)"""
-    a = c.args
-    if c.op != "issymmetric" or (a["version"] is None and not a["details"]):
-        return False
-    dt = eff_dtype(a)
-    if dt is None or DTYPES.get(dt) is None:
-        return False
-    shape, groups, data = a["shape"], groups_of(a), [int(x) for x in a["data"]]
-    if any(len({shape[m] for m in g}) != 1 for g in groups):
-        return False
-    bits, signed = DTYPES[dt]
-    subs = tgen.all_subs(shape)
-    pos = {tuple(s_): k for k, s_ in enumerate(subs)}
-    N = len(shape)
-    for g in groups:
-        for p_ in itertools.permutations(g):
-            perm = list(range(N))
-            for m, v in zip(g, p_):
-                perm[m] = v
-            pairs = []
-            for i in subs:
-                j = [0] * N
-                for k in range(N):
-                    j[perm[k]] = i[k]
-                pairs.append((data[pos[tuple(i)]], data[pos[tuple(j)]]))
-            if all(x == y for x, y in pairs):
-                continue
-            if dt == "bool":
-                return True
-            if a["details"] and _np_abs_max_wrapped(pairs, bits, signed) != max(abs(x - y) for x, y in pairs):
-                return True
-    return False
-
-
-def _wit_n1():
-    import numpy as np
-    import pyttb as ttb
-    B = ttb.tensor(np.array([[1.0, 2.0], [0.0, 4.0]])) > 0.5          # a logical tensor, not symmetric
-    try:
-        r = B.issymmetric(version=1)
-    except TypeError as ex:
-        return f"(X > 0.5).issymmetric(version=1) raises TypeError: {str(ex)[:80]}"
-    if r is not False:
-        return f"(X > 0.5).issymmetric(version=1) answered {r} on a non-symmetric logical tensor"
-    U = ttb.tensor(np.array([[1, 200], [100, 4]], dtype=np.uint8))
-    d = U.issymmetric(version=1, return_details=True)[1]
-    if float(np.max(d)) != 100.0:
-        return f"uint8 tensor [[1,200],[100,4]]: the reported largest difference is {float(np.max(d))}, the true one is 100"
-    return None
-
-
-# known finding C15-N2 (wave 5): NEW symmetrize sums the classes with numpy_groupies.aggregate, whose accumulator type is derived
-# from the element type: float32 for uint64 data
-def _n2(c):
-    a = c.args
-    return (c.op == "symmetrize" and a["version"] is None and eff_dtype(a) == "uint64" and max(int(x) for x in a["data"]) >= 2 ** 24
-            and not is_sym(a["shape"], a["data"], groups_of(a)))
-
-
-def _wit_n2():
-    import numpy as np
-    import pyttb as ttb
-    A = np.array([[623645800123, 971246110324, 1099511627776], [1099511627776, 3, 0], [733086958055, 1099511627776, 591631255773]],
-                 dtype=np.uint64)
-    S = ttb.tensor(A).symmetrize()
-    if float(S.data[0, 0]) != 623645800123.0 or float(S.data[0, 1]) != 1035378869050.0:
-        return (f"uint64 3x3 tensor: symmetrize() returns [0,0] = {float(S.data[0, 0])!r} (input 623645800123, unchanged by the average) and "
-                f"[0,1] = {float(S.data[0, 1])!r} (average 1035378869050); symmetrize(version=1) is exact")
-    return None
-
-
-TRIGGERS = {"old_issymmetric_subtracts_in_element_type": _n1, "new_symmetrize_uint64_sums_in_float32": _n2}
-WITNESSES = {"C15-N1": _wit_n1, "C15-N2": _wit_n2}
